@@ -192,6 +192,8 @@ def run(ctx):
                         E.find_method("_initialize_references"))
     S2 = repo.cls("line.segment.GFA2")
     legal = [P(0, False), P(3, False), P(5, False), P(7, True)]
+    if ctx.tier == "thorough":
+        legal += [P(1, False), P(6, False)]
     n_comp = 0
     for b1, e1, b2, e2 in itertools.product(legal, legal, legal, legal):
         k1 = spec.ref_substring_type(pos_tuple(b1), pos_tuple(e1))
